@@ -97,7 +97,7 @@ PropSpec {
     quick_runs: 16_000,
     thorough_runs: 400_000,
     default_seed: 303,
-    rule: "C01's space without disconnects, a quarter of the runs biased to held inputs (long prediction streaks); every (value, status) of every AdvanceFrame is checked against the input-delay model and the connection status read through the accessor; non-trivial = >= 10 predicted inputs, >= 1 rollback, >= 50 sealed frames; distinct = distinct executed-schedule hash",
+    rule: "C01's space, a fifth of the runs biased to held inputs (long prediction streaks), a fifth two-peer runs in which one side dies or is disconnected through the API (the Disconnected clause needs a disconnect); every (value, status) of every AdvanceFrame is checked against the input-delay model and the connection status read through the accessor; non-trivial = >= 10 predicted inputs, >= 1 rollback, >= 50 sealed frames; distinct = distinct executed-schedule hash",
     nontrivial: nt_c03,
     required_probes: &["predicted_inputs", "rollbacks", "sealed_frames", "frames_resimulated"],
     assumptions: BASE_ASSUME,
@@ -181,7 +181,7 @@ PropSpec {
     quick_runs: 40_000,
     thorough_runs: 1_000_000,
     default_seed: 1010,
-    rule: "3-4 peers with 1-2 players each, rollback mode (windows 1-12), delays, sparse on/off; one peer stops at a seeded instant; independently for every survivor the dying peer's packets are dropped from 0-150 ms before its death (so survivors hold different last frames for it and time it out at different instants); links between survivors only have latency and jitter. Oracles: no panic; once every survivor has disconnected the victim, all survivors' final inputs and statuses for the victim's players and their states agree on every frame sealed at all of them; survivors keep advancing. Non-trivial = packets of the dying peer were dropped for at least one survivor and >= 60 frames were simulated; distinct = distinct executed-schedule hash",
+    rule: "3-4 peers with 1-2 players each, rollback mode (windows 1-12), delays, sparse on/off; one peer stops at a seeded instant; independently for every survivor the dying peer's packets are dropped from 0-150 ms before its death (so survivors hold different last frames for it and time it out at different instants); links between survivors have latency and jitter, in 40 % of the runs also one loss burst of 50-700 ms (far below any timeout) around the death, and in 30 % one survivor has its own, different disconnect timeout. Oracles: no panic; once every survivor has disconnected the victim, all survivors' final inputs and statuses for the victim's players and their states agree on every frame sealed at all of them; survivors keep advancing. Non-trivial = packets of the dying peer were dropped for at least one survivor and >= 60 frames were simulated; distinct = distinct executed-schedule hash",
     nontrivial: nt_c10,
     required_probes: &["c10_runs_compared", "disconnected", "drop_window"],
     assumptions: BASE_ASSUME,
@@ -193,7 +193,7 @@ PropSpec {
     quick_runs: 30_000,
     thorough_runs: 800_000,
     default_seed: 1111,
-    rule: "C01's space (2-3 peers, 1-2 local players, 0-2 spectators, rollback and lockstep) plus 1-8 set_input_delay(handle, 0..=6) calls per run: 20 % before the first frame, 20 % in the same tick as the previous call, the rest at seeded instants (also while stalled). Oracle: the input-delay reference model gives the true input per player and frame; owner, remotes and spectators must end with it on every sealed frame (C01/C03/C06 checks), no call may panic, nothing may stay stranded in the outgoing buffer. Non-trivial = >= 1 delay change executed after the session started plus >= 50 sealed frames; distinct = distinct executed-schedule hash",
+    rule: "C01's space (2-3 peers, 1-2 local players, 0-2 spectators, rollback and lockstep) plus 1-8 set_input_delay(handle, 0..=6) calls per run: 20 % before the first frame, 20 % in the same tick as the previous call, the rest at seeded instants (also while stalled). Every run ends with a quiet tail of 3 s without faults. Oracle: the input-delay reference model gives the true input per player and frame; owner, remotes and spectators must end with it on every sealed frame (C01/C03/C06 checks), no call may panic, every peer must still be advancing in the quiet tail, and at its end at most (spread of the local delays + 1) frames may wait in the outgoing buffer. Non-trivial = >= 1 delay change executed after the session started plus >= 50 sealed frames; distinct = distinct executed-schedule hash",
     nontrivial: nt_c11,
     required_probes: &["api_calls", "delay_fills", "dropped_submissions", "sealed_frames", "spectator_frames"],
     assumptions: BASE_ASSUME,
@@ -217,7 +217,7 @@ PropSpec {
     quick_runs: 400_000,
     thorough_runs: 10_000_000,
     default_seed: 1313,
-    rule: "degenerate simulation (one SyncTestSession, no network/clock): players 1-4, window 1-12, check distance 0..window-1 (valid) or >= window / sparse (must be rejected), delay 0-6, 30-400 frames; half of the valid runs inject a nondeterministic game step at a seeded frame (check distance >= 2) and must be reported within check_distance+2 frames naming the first affected frame; the others must never report; non-trivial = valid configuration that simulated >= 20 frames; distinct = distinct (request trace, seed) hash",
+    rule: "degenerate simulation (one SyncTestSession, no network/clock): players 1-4, window 1-12, check distance 0..window-1 (valid) or >= window / sparse (must be rejected), delay 0-6, 30-400 frames; half of the valid runs inject a nondeterministic game step at a seeded frame (check distance >= 2; either every simulation of the frame differs, or only its k-th re-simulation does) and must be reported within check_distance+2 frames naming the first affected frame; the others must never report; non-trivial = valid configuration that simulated >= 20 frames; distinct = distinct (request trace, seed) hash",
     nontrivial: nt_c13,
     required_probes: &["synctest_runs_with_detection", "synctest_invalid_configs_tried", "rollbacks"],
     assumptions: &["the injected fault is a game step whose result differs between simulations of the same frame (fresh counter mixed into the state)", "no network, no clock: the technique degenerates to seeded workload + fault + oracle + replay"],
@@ -229,7 +229,7 @@ PropSpec {
     quick_runs: 1980,
     thorough_runs: 49_500,
     default_seed: 1515,
-    rule: "fault-free grid: lead k in -7..=7 x symmetric constant latency 0,10,..,100 ms x fps {30,60,120} = 495 cells, each with seeded tick phase, poll period 1-2 ms (the documented main loop: poll often, advance once per frame), input delay and wall-clock skew of up to two days between the machines (quick: 2 seeds per cell, thorough: 100); window sized so that nobody stalls; 3 s warm-up, 5 s measurement. On every measured tick: frames_ahead() within 1 of +k / -k, the two values sum to within 1 of zero, ping within one tick (+1 ms) of the true round trip, remote_frames_behind equals the last quality report received and is within 1 of the other side's local_frames_behind; every WaitRecommendation carries frames_ahead() >= 3 and is >= 60 frames after the previous one; network_stats() gives no numbers in the first second. Non-trivial = >= 100 measured ticks; distinct = distinct executed-schedule hash",
+    rule: "fault-free grid: lead k in -7..=7 x symmetric constant latency 0,10,..,100 ms x fps {30,60,120} = 495 cells, each with seeded tick phase, poll period 1-2 ms (the documented main loop: poll often, advance once per frame), input delay and wall-clock skew of up to two days between the machines (quick: 2 seeds per cell, thorough: 100); window sized so that nobody stalls; 3 s warm-up, 5 s measurement; in a third of the runs quality reports and replies are lost for 50-450 ms windows during the warm-up (never during the measurement). On every measured tick: frames_ahead() within 1 of +k / -k, the two values sum to within 1 of zero, ping within one tick (+1 ms) of the true round trip, remote_frames_behind equals the last quality report received and is within 1 of the other side's local_frames_behind; every WaitRecommendation carries frames_ahead() >= 3 and is >= 60 frames after the previous one; network_stats() gives no numbers in the first second. Non-trivial = >= 100 measured ticks; distinct = distinct executed-schedule hash",
     nontrivial: nt_c15,
     required_probes: &["timesync_ticks_measured", "wait_recommendations_checked", "wait_recommendation"],
     assumptions: &["the simulated user follows the documented main loop (poll every 1-2 ms): polling only once per tick adds up to a tick of waiting to every measured round trip, which is the user's quantisation", "tolerances of +-1 frame / one tick are derived from poll granularity and integer truncation, not tuned"],
@@ -253,7 +253,7 @@ PropSpec {
     quick_runs: 6000,
     thorough_runs: 150_000,
     default_seed: 1717,
-    rule: "C01's space (half of the runs with 3-4 peers, a third with desync detection on, rollback and lockstep, spectators); every plan is executed three times in one process with the same API calls, clock readings and per-link packet fates but different hash keys (single key vs a fresh key per map) and different handshake random numbers; request lists, final frames, per-address event sequences with their timestamps and the executed traffic schedule must be identical. Non-trivial = >= 1 rollback and >= 3 nodes or >= 3 players; distinct = distinct executed-schedule hash",
+    rule: "C01's space (3-4 peers in half of the plain runs, a third with desync detection on, rollback and lockstep, spectators), plus a fifth of the runs with run-time delay changes (C11's plans) and a fifth with a really diverging game and desync detection (C09's plans); every plan is executed three times in one process with the same API calls, clock readings and per-link packet fates but different hash keys (single key vs a fresh key per map) and different handshake random numbers; request lists, final frames, per-address event sequences with their timestamps and the executed traffic schedule must be identical. Non-trivial = >= 1 rollback and >= 3 nodes or >= 3 players; distinct = distinct executed-schedule hash",
     nontrivial: nt_c17,
     required_probes: &["twin_runs", "rollbacks", "spectator_frames"],
     assumptions: BASE_ASSUME,
@@ -265,7 +265,7 @@ PropSpec {
     quick_runs: 2400,
     thorough_runs: 60_000,
     default_seed: 1818,
-    rule: "long runs (600-20000 frames) in six equal parts: all-local sessions without any remote; sessions whose events are never drained while unequal tick rates keep WaitRecommendations coming; hosts whose spectator stops polling for good; desync detection with lost ChecksumReports; repeated one-way input/ack outages of up to 0.9 x timeout; plain long runs of C01's space. After every API call the sizes read through the accessor must respect bounds that depend only on the configuration: event queue <= 100, pending local inputs <= local players, nothing queued for sending without remotes, unacknowledged inputs per endpoint <= 128 + window + 8, remembered received inputs <= 2 x max(2 x window, 129) + 4, pending checksums <= 64, checksum history <= 33; a silent spectator must have been disconnected. Non-trivial = >= 600 frames simulated; distinct = distinct executed-schedule hash",
+    rule: "long runs (600-20000 frames) in six equal parts: sessions with local players only - half of them without any endpoint, half with 1-2 spectators; sessions whose events are never drained while unequal tick rates keep WaitRecommendations coming; hosts whose spectator stops polling for good; desync detection with lost ChecksumReports; repeated one-way input/ack outages of up to 0.9 x timeout; plain long runs of C01's space. After every API call the sizes read through the accessor must respect bounds that depend only on the configuration: event queue <= 100, pending local inputs <= local players, nothing queued for sending without remotes, unacknowledged inputs per endpoint <= 128 + window + 8, remembered received inputs <= 2 x max(2 x window, 129) + 4, pending checksums <= 64, checksum history <= 33; a silent spectator must have been disconnected. Non-trivial = >= 600 frames simulated; distinct = distinct executed-schedule hash",
     nontrivial: nt_c18,
     required_probes: &["silent_spectators_checked", "silent_spectators_cut_loose", "wait_recommendation", "drop_window", "input_ring_wraps", "spectator_frames"],
     assumptions: &["the allocator-slope test of the design was dropped: the harness game's own history grows with the run and cannot be separated from the session's allocations by a per-thread counter", "sizes are read through the verif-hooks accessor"],
